@@ -135,7 +135,8 @@ class TimeTriggerDecorator(TriggerDecorator):
                 _LOGGER.debug("%s finish sleeping for %s seconds", self, timeout)
                 while True:
                     now = dt_now()
-                    timeout = (time_next_adj - now).total_seconds()
+                    # the wall clock is compared with the trigger time itself; time_next_adj only sizes the first sleep
+                    timeout = (time_next - now).total_seconds()
                     if timeout <= 1e-6:
                         break
                     _LOGGER.debug("%s additional sleep for %s seconds", self, timeout)
